@@ -68,6 +68,8 @@ def _case(draw, tier):
         # an inner node MUTATES the list it receives as a signature default (nobody supplies it): every item starts from a pristine
         # default, as a single run does
         "default_mut": prob(draw, 0.25),
+        # the first inner node EMITS an ordering signal; next to the mapping node an outer node waits for it
+        "inner_emit": prob(draw, 0.3),
     }
 
 
@@ -78,7 +80,7 @@ def strategy(tier):
 def inner_spec(case):
     ps = case["ps"]
     nodes = [
-        {"k": "func", "name": "k", "params": ps + ["bc"], "defaults": {}, "outs": ["key"]},
+        {"k": "func", "name": "k", "params": ps + ["bc"], "defaults": {}, "outs": ["key"], **({"emit": ["isig"]} if case.get("inner_emit") else {})},
         {"k": "ifelse", "name": "g", "params": ["key"], "defaults": {}, "t": "ev", "f": "od", "table": case["table"]},
         {"k": "func", "name": "ev", "params": ["key"], "defaults": {}, "outs": ["e"], "fail": {"mod": case["failmod"], "eq": 0}, "fail_per_args": True},
         {"k": "func", "name": "od", "params": ["key"], "defaults": {}, "outs": ["o"]},
@@ -291,6 +293,10 @@ def check_case(case, ev):
             labels.add("map_over_reconfigured_after_the_node_ran")
         wrapper = {"k": "graph", "name": "inner", "graph": gspec_used, "map": m, "renames": renames}
         ospec = {"nodes": [wrapper]}
+        waiter = bool(case.get("inner_emit")) and not gspec.get("select")
+        if waiter:
+            # the mapping node publishes the signal of its graph like any other output; a node that waits for it runs afterwards
+            ospec = {"nodes": [wrapper, {"k": "func", "name": "after", "params": [], "defaults": {}, "outs": ["aft"], "wait_for": ["isig"]}]}
         if case["deep"]:
             ospec = {"nodes": [{"k": "graph", "name": "mid", "graph": {"nodes": [wrapper], "name": "mid"}}]}
         g = make_graph(c, ospec, flavour)
@@ -339,6 +345,11 @@ def check_case(case, ev):
                 ev.known_excluded[kf["id"]] += 1
         if case["mut"] and v.get(inmap.get("cfg", "cfg")) != cfg0:
             raise Violation("c10.clone_leak", f"[{tag}] caller's broadcast list was modified although clone={case['clone']}: {J(v.get(inmap.get('cfg', 'cfg')))}")
+        if waiter and not case["deep"] and "aft" not in out.values:
+            raise Violation("c10.signal_of_mapped_graph_lost", f"[{tag}] the mapped graph's first node emits 'isig' and the mapping node completed, but the outer node waiting for 'isig' never ran "
+                            f"(result keys {sorted(out.values)})", empty=not combos)
+        if waiter:
+            labels.add("outer_waiter_on_a_signal_of_the_mapped_graph")
 
     for runner_kind in ("sync", "async", "sched"):
         for eh in ("continue", "raise"):
